@@ -114,8 +114,11 @@ func genCase(run *vgen.Run, r *vgen.Rand, idx int) {
 	// ---- description
 	nTRC := r.Range(1, 3)
 	rotateAt := r.Range(2, 4)
+	if nTRC >= 2 && r.Bool() {
+		rotateAt = nTRC
+	}
 	latestState := []int{0, 1, 2, 3, 4, 5, 5, 5, 6, 7, 8, 9}[r.Intn(12)] // 0..5 valid (grace per graceState), 6 expired, 7 future, 8,9 grace outlasts validity
-	graceState := r.Intn(4)   // 0,1 in grace, 2 grace over, 3 zero grace
+	graceState := []int{0, 0, 1, 1, 2, 3}[r.Intn(6)] // 0,1 in grace, 2 grace over, 3 zero grace
 	latestNA := vgen.Pick(r, 3, 24, 24*30, 24*30)
 	predNA := vgen.Pick(r, -3, 5, 24*30, 24*30) // predecessor may have expired or end soon
 	dropPred := r.Chance(1, 10)
@@ -160,7 +163,7 @@ func genCase(run *vgen.Run, r *vgen.Rand, idx int) {
 			cs.ia = iaOther
 		}
 		if r.Chance(1, 6) {
-			cs.mut = r.Range(1, 3)
+			cs.mut = r.Range(1, 4)
 		}
 		chains[j] = cs
 	}
@@ -288,7 +291,12 @@ func genCase(run *vgen.Run, r *vgen.Rand, idx int) {
 		case 2:
 			t.ExtKeyUsage = []x509.ExtKeyUsage{x509.ExtKeyUsageClientAuth, x509.ExtKeyUsageTimeStamping}
 		}
-		c, err := g.Issue(t, k, cas[cs.rootIdx], nil, false)
+		subj := k
+		if cs.mut == 4 { // the key id names the ring key, the certified key is another one
+			t.SubjectKeyId = pkigen.SKID(k.Pub)
+			subj = g.NewKey()
+		}
+		c, err := g.Issue(t, subj, cas[cs.rootIdx], nil, false)
 		if err != nil {
 			panic(err)
 		}
@@ -339,6 +347,12 @@ func genCase(run *vgen.Run, r *vgen.Rand, idx int) {
 	}
 	if latestState >= 8 {
 		tags = append(tags, "grace-outlasts-validity")
+	}
+	for _, cs := range chains {
+		if cs.mut == 4 {
+			tags = append(tags, "skid-names-other-key")
+			break
+		}
 	}
 	run.Tally(fmt.Sprintf("gen:err=%v", gerr != nil))
 	term := fmt.Sprintf("(SignerGen.CGen (PKIChain.mkdb %s %s) %d %d %d (%d)%%Z %s %s)", vgen.List(trcT), vgen.List(chainT),
